@@ -1005,10 +1005,47 @@ theorem unsubscribe_spec (d : Mode) (o token owner : Nat) : Pres d (unsubscribe 
   mvcgen [unsubscribe]
   hwf_fin d
 
+/-- dropping a `Var` handle touches `vars[v].handles` and `deadVars` only -/
+@[spec]
+theorem dropVarHandle_spec (d : Mode) (v : Nat) : Pres d (dropVarHandle v) := by
+  mvcgen [dropVarHandle]
+  hwf_fin d
+
+/-- `withVarHandle v act` is `act` or a no-op -/
+theorem withVarHandle_spec (d : Mode) (v : Nat) (act : M Unit) (h : Pres d act) :
+    Pres d (withVarHandle v act) := by
+  mvcgen [withVarHandle, h]
+
+theorem discard_spec {α} (d : Mode) (x : M α) (h : Pres d x) : Pres d (discard x) := by
+  mvcgen [Functor.discard, h]
+
 @[spec]
 theorem runEffectBasic_spec (d : Mode) (env : Env) (e : Effect) : Pres d (runEffectBasic env e) := by
-  mvcgen [runEffectBasic, Functor.discard]
-  all_goals exact writeVar_spec _ _ _ _
+  cases e with
+  | setVar v x =>
+    simp only [runEffectBasic]
+    exact withVarHandle_spec d v _ (discard_spec d _ (writeVar_spec _ _ _ _))
+  | modifyVar v x =>
+    simp only [runEffectBasic]
+    exact withVarHandle_spec d v _ (discard_spec d _ (writeVar_spec _ _ _ _))
+  | updateVar v x =>
+    simp only [runEffectBasic]
+    exact withVarHandle_spec d v _ (discard_spec d _ (writeVar_spec _ _ _ _))
+  | replaceVar v x =>
+    simp only [runEffectBasic]
+    apply withVarHandle_spec
+    mvcgen
+  | replaceWithVar v x =>
+    simp only [runEffectBasic]
+    apply withVarHandle_spec
+    mvcgen
+  | dropVar v =>
+    simp only [runEffectBasic]
+    exact discard_spec d _ (dropVarHandle_spec d v)
+  | readObs o => mvcgen [runEffectBasic]
+  | panic => mvcgen [runEffectBasic]
+  | disallow o => mvcgen [runEffectBasic]
+  | _ => mvcgen [runEffectBasic]
 
 /-! ## recompute -/
 
